@@ -1098,9 +1098,10 @@ void reb_integrator_whfast_part2(struct reb_simulation* const r){
     const unsigned int N = r->N;
     const int N_real = r->N-r->N_var;
     const int unsigned N_active = (r->N_active==-1 || r->testparticle_type==1)?N_real:r->N_active;
-    if (p_j==NULL){
-        // Non recoverable error occured earlier. 
-        // Skipping rest of integration to avoid segmentation fault.
+    if (p_j==NULL || ri_whfast->N_allocated != N){
+        // Non recoverable error occured earlier (reb_integrator_whfast_init failed in part1, so p_jh is
+        // missing or still has the size of an earlier particle number).
+        // Skipping rest of integration to avoid out of bounds memory access.
         return;
     }
     
